@@ -31,6 +31,9 @@ CHECKS = {
  "C12": dict(cat="fault_enumeration", tech="runtime monitoring with fault injection at the caller's io.Writer: every write-call index and boundary byte capacity of the fault-free run, per generated template",
    text="For each generated bundle whose fault-free render succeeds, the write calls are recorded; then a sticky failing writer is injected at every write-call index (accepting nothing / half) and at byte capacities 0, 1, every write boundary +-1 and |O|-1: Render must return an error and the accepted bytes must be a prefix of the fault-free output; capacity |O| must give nil. Exhaustive over write indices per template; templates are sampled.",
    note="Faults exist only at the io.Writer boundary (render does no other I/O). Content blocks and {log} buffer and are not write sites.", ref="DESIGN.md §6 C12"),
+ "C07": dict(cat="exploration", tech="runtime monitoring: reference-rule monitor (independent lexical resolver) on Bundle.Compile accept/reject over single-violation injections at every site, plus the scope-miss hook watched during renders",
+   text="Every generated valid bundle must compile and, rendered with all declared params supplied, must never look up a name nothing binds (hook in scope.lookup). For each of 14 violation kinds, every applicable site of the bundle gets that one violation injected; whenever the reference rules reject the result, the compiler must reject it too.",
+   note="Trusted: ref/check.go. Readings the statement leaves open (data=all coverage, loop functions on non-loop variables) are not generated.", ref="DESIGN.md §6 C07"),
 }
 PENDING = "check not built yet (planned with runtime monitoring, see DESIGN.md §6); not claimed"
 props = [json.loads(l)['id'] for l in open('/verif/properties.jsonl')]
